@@ -225,7 +225,7 @@ func writeDerived(id string, info *derivedInfo) string {
 // error (C07 kernel contracts). A visitor type that overrides one of these Enter methods would silently
 // accept the construct for the part of the tree it handles, so no other type in package frontend may declare
 // them (derived, structural obligation over the method sets of the package).
-var unsupportedRules = []string{"Profile", "BulkImportQuery", "PeriodicCommitHint", "Union", "Command", "Foreach", "Start", "CaseExpression", "LegacyListExpression", "Reduce", "ExistentialSubquery", "LegacyParameter", "Explain", "LoadCSV"}
+var unsupportedRules = []string{"Profile", "BulkImportQuery", "PeriodicCommitHint", "Union", "Command", "Foreach", "Start", "CaseExpression", "LegacyListExpression", "Reduce", "ExistentialSubquery", "LegacyParameter", "Explain", "LoadCSV", "InQueryCall", "StandaloneCall", "ListOperatorExpression", "ListComprehension", "PatternComprehension", "CreateUnique"}
 
 func unsupportedOverrides(w *World) (overrides []string, checked int) {
 	pkg := w.typesPkgs[repoModule+"/cypher/frontend"]
@@ -263,4 +263,99 @@ func unsupportedOverrides(w *World) (overrides []string, checked int) {
 	}
 	sort.Strings(overrides)
 	return overrides, checked
+}
+
+// Rule coverage (C07, derived structural obligation). Every parser rule of the grammar must be accounted for:
+//   handled     - some visitor type other than BaseVisitor declares EnterOC_R or ExitOC_R (its content goes into
+//                 the model; whether it goes there correctly is what the bounded emit/parse stand-in checks),
+//   reported    - R is on the unsupported list, whose Enter methods are proved to append an error,
+//   dominated   - every derivation of R from oC_Cypher passes through a reported rule (computed on the grammar),
+//   transparent - R is on the reviewed list below: it has no tokens of its own that carry meaning (pure structure:
+//                 its content is entirely in child rules or is read by the parent's visitor through the rule
+//                 context), or it is a planner hint / query option, which openCypher defines to have no effect
+//                 on results.
+// A rule that is none of these is skipped silently by BaseVisitor's empty methods while its children are still
+// visited - the defect class of 'RETURN n.list[1..2]' being modelled as 'RETURN 2'. The obligation fails for a
+// grammar rule added without a visitor, a visitor method that is removed, or an error method that is emptied.
+var transparentRules = map[string]string{
+	"Cypher": "start rule", "Statement": "pure alternation", "Query": "pure alternation",
+	"QueryOptions": "planner options: no effect on results", "AnyCypherOption": "planner options", "CypherOption": "planner options", "VersionNumber": "planner options", "ConfigurationOption": "planner options",
+	"Hint": "USING INDEX/SCAN/JOIN planner hint: no effect on results",
+	"SortItem": "read by the order visitor through the rule context (ASC/DESC tokens)",
+	"AnonymousPatternPart": "pure structure", "PatternElement": "pure structure", "PatternElementChain": "pure structure",
+	"RelationshipsPattern": "pure structure (pattern predicate)", "RelationshipDetail": "read by the relationship pattern visitor", "RelationshipTypes": "pure structure", "RelType": "read by the parent", "Dash": "punctuation",
+	"FunctionName": "read by the function invocation visitor", "NumberLiteral": "pure alternation",
+	"YieldItems": "children of procedure calls", "YieldItem": "children of procedure calls", "ProcedureResultField": "children of procedure calls", "ProcedureName": "children of procedure calls",
+}
+
+func ruleCoverage(w *World, repo string) (uncovered []string, summary string) {
+	rules, err := parseGrammar(repo)
+	if err != nil {
+		return []string{"cannot read grammar: " + err.Error()}, ""
+	}
+	pkg := w.typesPkgs[repoModule+"/cypher/frontend"]
+	if pkg == nil {
+		return []string{"package cypher/frontend not loaded"}, ""
+	}
+	handled := map[string]bool{}
+	for _, name := range pkg.Scope().Names() {
+		tn, ok := pkg.Scope().Lookup(name).(*types.TypeName)
+		if !ok || name == "BaseVisitor" {
+			continue
+		}
+		named, ok := tn.Type().(*types.Named)
+		if !ok {
+			continue
+		}
+		for i := 0; i < named.NumMethods(); i++ {
+			m := named.Method(i).Name()
+			if strings.HasPrefix(m, "EnterOC_") {
+				handled[m[len("EnterOC_"):]] = true
+			} else if strings.HasPrefix(m, "ExitOC_") {
+				handled[m[len("ExitOC_"):]] = true
+			}
+		}
+	}
+	reported := map[string]bool{}
+	for _, r := range unsupportedRules {
+		reported[r] = true
+	}
+	// reachability from oC_Cypher with the reported rules cut out
+	seen := map[string]bool{}
+	var visit func(r string)
+	visit = func(r string) {
+		if seen[r] || reported[strings.TrimPrefix(r, "oC_")] {
+			return
+		}
+		seen[r] = true
+		for _, id := range grammarRefs(rules[r]) {
+			if strings.HasPrefix(id, "oC_") {
+				if _, ok := rules[id]; ok {
+					visit(id)
+				}
+			}
+		}
+	}
+	visit("oC_Cypher")
+	nH, nR, nD, nT, total := 0, 0, 0, 0, 0
+	for _, r := range sortedKeys(rules) {
+		if !strings.HasPrefix(r, "oC_") {
+			continue
+		}
+		total++
+		short := strings.TrimPrefix(r, "oC_")
+		switch {
+		case reported[short]:
+			nR++
+		case handled[short]:
+			nH++
+		case !seen[r]:
+			nD++
+		case transparentRules[short] != "":
+			nT++
+		default:
+			uncovered = append(uncovered, short)
+		}
+	}
+	return uncovered, fmt.Sprintf("%d parser rules: %d handled by a visitor, %d reported as unsupported, %d only derivable below a reported rule, %d on the reviewed transparent list", total, nH, nR, nD, nT)
 }
